@@ -516,7 +516,7 @@ def log_case(ctx, rng, wd):
 def run(ctx):
     from ..harness import fresh_dir, drop_dir
     wd = fresh_dir("c19")
-    n = ctx.n(900, 2500)
+    n = ctx.n(1800, 2500)
     for i in range(n):
         roundtrip_case(ctx, ctx.rng(), wd, i)
         centertype_case(ctx, ctx.rng(), wd, i)
